@@ -27,6 +27,7 @@ RULE = ("cases = (dataset, domain, condition tree) drawn by Hypothesis from the 
         "expected result is a non-empty proper sub-list of the domain and the condition has a connective or a "
         "mapping (attribute chain / index / call); distinct = distinct canonical JSON of the case.")
 BUDGET = {"quick": (4, 500), "thorough": (16, 6000)}
+FUZZ = (8, 2500)     # coverage-guided tier (thorough): processes, libFuzzer runs per process
 EXHAUSTIVE_NOTE = {"quick": "all and/or trees with <=2 leaves (each leaf plain or negated, optional root not) over "
                             "8 leaf kinds x 3 datasets",
                    "thorough": "all and/or trees with <=3 leaves (each leaf plain or negated, optional root not) over "
